@@ -493,6 +493,32 @@ func genParse(g *hx.Gen, r *hx.Rand) {
 			e := hx.Pick(r, []int64{1, 2, 65536, 1<<24 + 1, -65537})
 			f.section = wire.Cat(mp(k.N), mp(big.NewInt(e)), mp(k.D), mp(k.Precomputed.Qinv), mp(k.Primes[0]), mp(k.Primes[1]))
 		}
+	case 34, 35:
+		class = "rsa-size-bounds" // header values at the bounds as written: N 16384 bits, P/Q 8192 bits, E 24 bits
+		if kind == "rsa" {
+			k := key.RSA
+			bit := func(n uint) *big.Int { v := new(big.Int).Lsh(big.NewInt(1), n-1); return v.Add(v, big.NewInt(1)) }
+			n, e, pp, qq := k.N, big.NewInt(int64(k.E)), k.Primes[0], k.Primes[1]
+			switch r.Intn(8) {
+			case 0:
+				n = bit(16384)
+			case 1:
+				n = bit(16385)
+			case 2:
+				pp = bit(8192)
+			case 3:
+				pp = bit(8193)
+			case 4:
+				qq = bit(8193)
+			case 5:
+				e = big.NewInt(1<<23 + 1) // 24 bits, odd: passes the bound, Validate decides
+			case 6:
+				e = big.NewInt(1<<24 + 1) // 25 bits
+			case 7:
+				qq = bit(8192)
+			}
+			f.section = wire.Cat(mp(n), mp(e), mp(k.D), mp(k.Precomputed.Qinv), mp(pp), mp(qq))
+		}
 	case 18:
 		class = "keytype-unknown"
 		f.keytype = hx.Pick(r, []string{"ssh-dss", "sk-ssh-ed25519@openssh.com", "", "ssh-ed25519-cert-v01@openssh.com", "rsa-sha2-256"})
